@@ -5,14 +5,15 @@
 #   2. the demonstration test fails with the patch and passes without it
 #   3. ./check <ID> against the patched tree -> rc (1 expected)
 set -u
-ID=$1; K=$2; TIER=${3:-quick}
-SRC=/tmp/seed_$ID/_seed
+ID=$1; K=$2; TIER=${3:-quick}; ROUND=${4:-1}
+if [ "$ROUND" = "1" ]; then PFX=seed; TAG=$ID-$K; else PFX=seed$ROUND; TAG=$ID-r$ROUND-$K; fi
+SRC=/tmp/${PFX}_$ID/_seed
 PATCH=$SRC/patch$K.diff
-DEMO=$SRC/seed_${ID}_$K.rs
+DEMO=$SRC/${PFX}_${ID}_$K.rs
 if [ ! -f "$PATCH" ]; then      # already filed: re-verify from /verif/seeded
-  PATCH=/verif/seeded/$ID-$K/patch.diff
-  mkdir -p /tmp/sc_demo_$$ && cp /verif/seeded/$ID-$K/demo.rs /tmp/sc_demo_$$/seed_${ID}_$K.rs
-  DEMO=/tmp/sc_demo_$$/seed_${ID}_$K.rs
+  PATCH=/verif/seeded/$TAG/patch.diff
+  mkdir -p /tmp/sc_demo_$$ && cp /verif/seeded/$TAG/demo.rs /tmp/sc_demo_$$/${PFX}_${ID}_$K.rs
+  DEMO=/tmp/sc_demo_$$/${PFX}_${ID}_$K.rs
 fi
 [ -f "$PATCH" ] && [ -f "$DEMO" ] || { echo "missing $PATCH or $DEMO"; exit 2; }
 WT=$(mktemp -d /tmp/sc_XXXXXX); rmdir "$WT"
@@ -20,7 +21,7 @@ git -C /repo worktree add --detach -q "$WT" HEAD || exit 2
 cleanup() { git -C /repo worktree remove --force "$WT" 2>/dev/null; rm -rf "$WT"; }
 trap cleanup EXIT
 mkdir -p "$WT/tests" && cp "$DEMO" "$WT/tests/"
-NAME=seed_${ID}_$K
+NAME=${PFX}_${ID}_$K
 ( cd "$WT" && cargo test --offline --test $NAME 2>&1 | grep "test result" | head -1 ) > /tmp/sc_clean.txt
 CLEAN=$(grep -c "test result: ok" /tmp/sc_clean.txt)
 ( cd "$WT" && git apply "$PATCH" ) || { echo "patch does not apply"; exit 2; }
@@ -34,19 +35,19 @@ cd "$(dirname "$0")/.." && VERIF_MILA="$WT" VERIF_EVIDENCE_DIR="$EVD" ./check "$
 RC=$?
 NV=$(grep -c '^VIOLATION' "$EVD/log")
 FIRST=$(grep -A1 '^VIOLATION' "$EVD/log" | sed -n 2p | cut -c1-400)
-echo "$ID-$K: suite_ok=$SUITE demo_passes_clean=$CLEAN demo_fails_patched=$DEMOFAIL check_rc=$RC violations=$NV"
+echo "$TAG: suite_ok=$SUITE demo_passes_clean=$CLEAN demo_fails_patched=$DEMOFAIL check_rc=$RC violations=$NV"
 echo "   $FIRST"
 [ $RC -eq 2 ] && tail -5 "$EVD/log"
-OUT=/verif/seeded/$ID-$K
+OUT=/verif/seeded/$TAG
 mkdir -p "$OUT"; [ "$PATCH" = "$OUT/patch.diff" ] || { cp "$PATCH" "$OUT/patch.diff"; cp "$DEMO" "$OUT/demo.rs"; }
-python3 - "$ID" "$K" "$SUITE" "$CLEAN" "$DEMOFAIL" "$RC" "$NV" "$TIER" "$FIRST" <<'PY'
+python3 - "$ID" "$K" "$SUITE" "$CLEAN" "$DEMOFAIL" "$RC" "$NV" "$TIER" "$FIRST" "$TAG" <<'PY'
 import json,sys,os
-ID,K,SUITE,CLEAN,DEMOFAIL,RC,NV,TIER,FIRST=sys.argv[1:10]
-out="/verif/seeded/%s-%s/meta.json"%(ID,K)
+ID,K,SUITE,CLEAN,DEMOFAIL,RC,NV,TIER,FIRST,TAG=sys.argv[1:11]
+out="/verif/seeded/%s/meta.json"%TAG
 old=json.load(open(out)) if os.path.exists(out) else {}
 old.update({"property":ID,"seed":int(K),"suite_passes_with_patch":SUITE=="1","demo_passes_without_patch":CLEAN=="1","demo_fails_with_patch":DEMOFAIL=="1",
  "check_tier":TIER,"check_rc":int(RC),"check_violations":int(NV),"first_violation":FIRST.strip(),
- "ran":["cargo test --offline --lib (patched worktree)","cargo test --offline --test seed_%s_%s (clean and patched)"%(ID,K),"VERIF_MILA=<patched worktree> ./check %s --tier %s"%(ID,TIER)]})
+ "ran":["cargo test --offline --lib (patched worktree)","cargo test --offline --test <demo> (clean and patched)","VERIF_MILA=<patched worktree> ./check %s --tier %s"%(ID,TIER)]})
 json.dump(old,open(out,"w"),indent=1)
 PY
 rm -rf "$EVD"
